@@ -28,7 +28,8 @@ RULE = ('70% E1 / 30% E2 histories driven to a quiescent state (cycle until '
         'topology has >=2 servers and >=1 server that does not fit. '
         'distinct = canonical JSON.'
         ' Since rounds 5-7: histories include instances that lost their server outside a cycle and identity groups; a quarter of the E1 probes arrive behind two same-shape instances that are impossible in one dimension each; E2 probes are judged against the quiescent pre-state as well.'
-        " Since round 8: where an ancestor's aggregate (free capacity, traits, labels, reboot time) looks smaller than what an up server below it offers, the probe is aimed at that server (the hint only chooses the probe, the verdict stays ground truth); rackshift macro (largest server of a rack fails, a smaller one joins, work lands on what is left).")
+        " Since round 8: where an ancestor's aggregate (free capacity, traits, labels, reboot time) looks smaller than what an up server below it offers, the probe is aimed at that server (the hint only chooses the probe, the verdict stays ground truth); rackshift macro (largest server of a rack fails, a smaller one joins, work lands on what is left)."
+        ' Since round 9: retrait macro (a node comes back with other traits, same capacity); E2 probes aimed by the traits hint.')
 ASSUMPTIONS = [
     'virtual clock replaces the time module in the scheduler modules',
     'apps ahead of the probe in the queue behave as in the quiescent cycle, '
